@@ -528,6 +528,16 @@ class RefParser:
             return p, []
         return p, [Asg(e.attr, e.op, items, objref, items[0][0].start if items[0] else pos, p)]
 
+def leaves(t):
+    if isinstance(t, Tok):
+        return [t]
+    out = []
+    if isinstance(t, Node):
+        for c in t.children:
+            out.extend(leaves(c))
+    return out
+
+
 def flat(x):
     out = []
     for y in x:
@@ -565,11 +575,13 @@ def attr_types(g, rule):
 PYDEF = {'ID': '', 'BOOL': False, 'INT': 0, 'FLOAT': 0.0, 'STRICTFLOAT': 0.0, 'STRING': '', 'NUMBER': 0.0, 'BASETYPE': ''}
 
 class Builder:
-    def __init__(self, g, auto_init=True, use_regexp_group=False):
+    def __init__(self, g, auto_init=True, use_regexp_group=False, emulate=()):
         self.g = g
         self.kinds = rule_kinds(g)
         self.auto_init = auto_init
         self.urg = use_regexp_group
+        # names of known textX deviations to reproduce (used only to attribute a divergence to a mechanism)
+        self.emulate = set(emulate)
 
     def tokval(self, tok):
         if tok.kind == 'lit':
@@ -609,7 +621,34 @@ class Builder:
                 return self.value(c)
         if len(ch) == 1:
             return self.value(ch[0])
+        nodes = [c for c in ch if isinstance(c, Node)]
+        if 'abstract-all-match:first-nonterminal' in self.emulate:
+            for c in nodes:
+                if not self.tx_terminal(c.rule):
+                    return self.value(c)
+        if 'abstract-all-match:first-node' in self.emulate and nodes:
+            return self.value(nodes[0])
+        for k in range(len(nodes)):
+            if 'abstract-all-match:node-%d' % k in self.emulate:
+                return self.value(nodes[k])
+        if 'abstract-all-match:first-multi-token-node' in self.emulate:
+            for c in nodes:
+                if len(leaves(c)) > 1:
+                    return self.value(c)
         return ''.join(str(self.value_m(c)) for c in ch)
+
+    def tx_terminal(self, rname, depth=0):
+        """does textX's parse tree hold a Terminal for a match of this match rule (body is one literal / regex /
+        base-type regex, possibly through single references)"""
+        r = self.g.rule(rname)
+        if r is None:
+            return rname in BASE
+        b = r.body
+        if isinstance(b, (Lit, Re)):
+            return True
+        if isinstance(b, Ref) and depth < 10:
+            return self.tx_terminal(b.name, depth + 1)
+        return False
 
     def obj(self, node):
         rule = self.g.rule(node.rule)
